@@ -86,5 +86,24 @@ fn main() {
         let st = dfs::explore(&cfg, &move || c14::run_full(t, rounds));
         c.add_dfs(&part, &st);
     }
+    // A long session (ring indices wrap).
+    {
+        let requests = if args.tier == Tier::Quick { 70_000 } else { 200_000 };
+        let (n, v) = match vlab::util::catch(|| c14::run_linear(TKind::Model, requests)) {
+            Ok(r) => r,
+            Err(p) => {
+                if p.contains("LAB-LIVELOCK") || vlab::util::is_driver_panic(&p) {
+                    (1, vec![("linear-run".to_string(), format!("long session: {}", p))])
+                } else {
+                    c.machinery_error(format!("linear run: harness panic: {}", p));
+                    (0, vec![])
+                }
+            }
+        };
+        c.add_sweep(&format!("linear-run: one session of {} requests (blocking writes and reads, pairs of non-blocking reads completed newest first)", requests), n, 1, true, vlab::util::J::obj());
+        for (k, d) in v {
+            c.add_violation(vlab::engine::Violation::new("C14", k, d.clone()), "linear-run", vlab::util::J::obj().set("kind", vlab::util::J::s("case")).set("case", vlab::util::J::s(d)), vec![]);
+        }
+    }
     c.finish();
 }
